@@ -36,7 +36,7 @@ ASSUMPTIONS = [
 ]
 TRUSTED_BASE = ['vf/hail_call_model.py']
 SHARDS = {'quick': 1, 'thorough': 16}
-TIMEOUT = {'quick': 600, 'thorough': 1800}
+TIMEOUT = {'quick': 900, 'thorough': 1800}
 FLOORS = {
     'engine_accepts_compared': 9000, 'python_roundtrips': 9000, 'engine_rejects_seen': 100, 'packed_negative_int32': 50, 'indices_checked': 300_000,
     'phased_diploid_compared': 3000, 'unphased_diploid_compared': 3000, 'haploid_compared': 100, 'constants_extracted': 8,
